@@ -291,6 +291,7 @@ def callCustom (fid : Nat) (recv : Val) (args : List Val) : Val :=
       match args with
       | [] => .arr xs
       | a0 :: _ => .arr (xs.map fun x => if Val.desc x == Val.desc a0 then .str (b "***") else x)
+    else if fid == 3 then .arr (xs ++ [.str (b "tag")] ++ args)
     else .arr [.str (Val.descList xs), .str (Val.descList args)]
   | .int i => if fid == 0 then .int (i + Int64.ofNat args.length) else .int (i * 2)
   | .float f => if fid == 0 then .float (f / 2.0) else .float (f + Float.ofNat args.length)
